@@ -217,7 +217,8 @@ def rejection_cases(rng, base_programs):
             t2 = list(toks)
             t2[i - 1] = rng.choice(REJECT_TARGETS[:8])
             out.append(("bad-update-target", " ".join(t2), " ".join(t2[max(0, i - 6):i + 4])))
-    fixed = [("unterminated-comment", "var a = 1; /* never closed"), ("unterminated-comment", "1 + /* x \n 2"), ("unterminated-regex", "var r = /abc"),
+    fixed = [("unterminated-comment", "var a = 1; /* never closed"), ("unterminated-comment", "1 + /* x \n 2"), ("unterminated-comment", "var y = 5; y /*/ + 1"),
+             ("unterminated-comment", "1 /*/"), ("unterminated-comment", "/*/"), ("unterminated-comment", "1 /* * /"), ("unterminated-comment", "/* // */ 1 /* //\n"), ("unterminated-regex", "var r = /abc"),
              ("unterminated-regex", "var r = /a[/; 1"), ("unterminated-string", "var s = 'abc"), ("unterminated-string", "var s = \"abc\n\";"),
              ("bad-assign-target", "1 = 2"), ("bad-assign-target", "a + b = 3"), ("bad-assign-target", "f() = 1"), ("bad-assign-target", "(a, b) = 1"),
              ("bad-update-target", "a++ = 2"), ("bad-update-target", "++5"), ("bad-update-target", "5--"), ("bad-update-target", "++f()"),
